@@ -37,6 +37,7 @@ type Stats struct {
 	CapReason   string
 	Infra       []string
 	Determinism int // executions re-run and compared
+	ColdReruns  int // executions replaced by their re-run because the first run met a cold process (see verify)
 }
 
 // Cost of a choice sequence: preemptions, non-default choices at blocking points, environment deviations.
@@ -75,14 +76,15 @@ func (e *Explorer) run(prefix []Choice) *Result {
 // warm runs the default execution once and throws it away: whatever the code under test builds lazily and keeps for
 // the life of the process (package-level tables and caches) exists afterwards, so that the first execution that
 // counts meets the same scheduling points as its re-runs.
-func (e *Explorer) warm() {
+func (e *Explorer) warm() *Result {
 	if e.Embedded || e.warmed {
-		return
+		return nil
 	}
 	e.warmed = true
 	verifying = true
-	Run(nil, e.Body, RunOpts{MaxSteps: e.MaxSteps, Races: e.Races})
+	r := Run(nil, e.Body, RunOpts{MaxSteps: e.MaxSteps, Races: e.Races})
 	verifying = false
+	return r
 }
 
 // Replay runs one choice sequence (with tracing) without searching.
@@ -93,9 +95,11 @@ func (e *Explorer) Replay(prefix []Choice) *Result {
 // Root runs the default execution and returns it together with the prefixes of all subtrees that hang
 // off it within the bounds (the work items for sharding).
 func (e *Explorer) Root() (*Result, [][]Choice) {
-	e.warm()
+	if w := e.warm(); w != nil && w.Status == StStalled {
+		return w, nil // the default execution never gets anywhere: that is the result
+	}
 	r := e.run(nil)
-	e.verify(nil, r)
+	r = e.verify(nil, r)
 	if r.Unverified {
 		return r, nil
 	}
@@ -145,32 +149,51 @@ var verifying bool
 // that keeps counters of its own skips them then).
 func Verifying() bool { return verifying }
 
-// verify re-runs the first executions of a search and every suspicious one to make sure the schedule
-// determines the execution. A mismatch is an infrastructure error, never a violation.
-func (e *Explorer) verify(prefix []Choice, r *Result) {
+// verify re-runs the first executions of a search to make sure the schedule determines the execution, and returns the
+// execution to go on with. If the re-run differs, the process may simply have been cold (something the code under test
+// builds once per process did not exist yet during the first run): the subtree root is then executed again from its
+// prefix and re-run once more; if those two agree they replace the first run. Otherwise the mismatch is recorded as an
+// infrastructure error and the execution is marked Unverified (it is not judged). Never a violation.
+func (e *Explorer) verify(prefix []Choice, r *Result) *Result {
 	if r.Status == StInfra {
 		e.Stats.Infra = append(e.Stats.Infra, r.Infra)
-		return
+		return r
+	}
+	if r.Status == StStalled {
+		return r // nothing can be executed in this process any more
 	}
 	if e.Stats.Determinism >= 20 {
-		return
+		return r
 	}
 	if e.Embedded {
 		// many tiny searches in one process (one per evaluated case): the re-runs are budgeted per process, not per search
 		if embeddedVerified >= 400 {
-			return
+			return r
 		}
 		embeddedVerified++
 	}
 	e.Stats.Determinism++
-	verifying = true
-	r2 := Run(r.Choices, e.Body, RunOpts{MaxSteps: e.MaxSteps, Races: e.Races})
-	verifying = false
-	if r2.TraceHash != r.TraceHash || r2.Status != r.Status || len(r2.Points) != len(r.Points) {
-		e.Stats.Infra = append(e.Stats.Infra, fmt.Sprintf("non-deterministic replay: hash %x/%x status %s/%s points %d/%d infra=%q",
-			r.TraceHash, r2.TraceHash, r.Status, r2.Status, len(r.Points), len(r2.Points), r2.Infra))
-		r.Unverified = true
+	same := func(a, b *Result) bool {
+		return a.TraceHash == b.TraceHash && a.Status == b.Status && len(a.Points) == len(b.Points)
 	}
+	opts := RunOpts{MaxSteps: e.MaxSteps, Races: e.Races}
+	verifying = true
+	defer func() { verifying = false }()
+	r2 := Run(r.Choices, e.Body, opts)
+	if same(r, r2) {
+		return r
+	}
+	ra := Run(prefix, e.Body, opts)
+	if ra.Status != StInfra && ra.Status != StStalled {
+		if rb := Run(ra.Choices, e.Body, opts); same(ra, rb) {
+			e.Stats.ColdReruns++
+			return ra
+		}
+	}
+	e.Stats.Infra = append(e.Stats.Infra, fmt.Sprintf("non-deterministic replay: hash %x/%x status %s/%s points %d/%d infra=%q",
+		r.TraceHash, r2.TraceHash, r.Status, r2.Status, len(r.Points), len(r2.Points), r2.Infra))
+	r.Unverified = true
+	return r
 }
 
 // Confirm re-executes a schedule n times and reports whether status and trace are identical each time.
@@ -202,12 +225,17 @@ func (e *Explorer) Subtree(prefix []Choice) {
 		return
 	}
 	r := e.run(prefix)
-	e.verify(prefix, r)
+	r = e.verify(prefix, r)
 	if r.Unverified {
 		return // recorded as an infrastructure error; an execution that does not replay is not judged
 	}
 	if e.Check != nil && !e.Check(r) {
 		e.stop = true
+		return
+	}
+	if r.Status == StStalled {
+		e.stop = true // a goroutine of that execution is still running: nothing more can be executed in this process
+		e.Stats.Capped, e.Stats.CapReason = true, "an execution stalled"
 		return
 	}
 	for _, c := range e.children(prefix, r) {
